@@ -122,6 +122,7 @@ pub fn check_emission(prog: &Prog, files: &BTreeMap<String, String>) -> Result<(
 
 impl Prop for Emission {
     type Case = Case;
+    crate::prog_shrink!();
     fn name(&self) -> String {
         "C14/emission".into()
     }
@@ -187,6 +188,7 @@ fn small_type(name: &str, n: u64) -> TypeDef {
 
 impl Prop for Collisions {
     type Case = CollisionCase;
+    crate::prog_shrink!();
     fn name(&self) -> String {
         "C14/collisions".into()
     }
